@@ -6,6 +6,7 @@ package main
 
 import (
 	"fmt"
+	"sync/atomic"
 	"go/types"
 	"strings"
 	"time"
@@ -126,7 +127,7 @@ func (e *Exec) flushAsserts() {
 	e.pending = nil
 	t := e.tb
 	// batch: OR_i (pc[:k_i] ∧ ¬c_i); pcs are nested prefixes
-	if len(pend) > 1 {
+	if len(pend) >= 1 {
 		// shared prefix conjunctions P_k = pc[0] ∧ ... ∧ pc[k-1] (one DAG)
 		prefix := make([]*Node, len(e.pc)+1)
 		prefix[0] = t.True()
@@ -138,8 +139,20 @@ func (e *Exec) flushAsserts() {
 			disj = t.BOr(disj, t.BAnd(prefix[p.pcLen], t.BNot(p.c)))
 		}
 		e.nQueries++
-		v, _, _ := e.solver.Check(t.Query([]*Node{disj}), e.cfg.AssertTimeoutMs, nil)
+		qtext := t.Query([]*Node{disj})
+		v, _, _ := e.solver.Check(qtext, e.cfg.AssertTimeoutMs, nil)
 		if v == Unsat {
+			// thorough tier: z3 5.x and cvc5 must agree that the batch is unsat
+			for _, cs := range e.solver.cross {
+				cv, _, why := cs.Check(qtext, e.cfg.AssertTimeoutMs, nil)
+				if cv == Unsat {
+					atomic.AddInt64(&e.eng.crossAgree, 1)
+				} else {
+					atomic.AddInt64(&e.eng.crossDisagree, 1)
+					e.asserts = append(e.asserts, AssertOutcome{Label: "solver-cross-check(" + cs.kind.Name + ")", Verdict: Unknown,
+						Inconcl: fmt.Sprintf("z3 4.8.12 says unsat, %s says %s %s", cs.kind.Name, cv, why)})
+				}
+			}
 			e.nAssertOK += len(pend)
 			return
 		}
